@@ -223,7 +223,8 @@ def projection_case(draw):
                 duration_us=draw(durations_us()),
                 date_pos=draw(st.sampled_from(["start", "stop", "median", "Median", "STOP"])),
                 form=draw(st.sampled_from(["cartesian", "cartesian", "keplerian", "equinoctial"])),
-                t=draw(go.uniform_int(0, 10 * 365 * 86400 * 10**6)))
+                t=draw(go.uniform_int(0, 10 * 365 * 86400 * 10**6)), dv_as=draw(st.sampled_from(DV_AS)),
+                scale=draw(st.sampled_from(SCALES)))
 
 
 def check_projection(case):
@@ -234,17 +235,20 @@ def check_projection(case):
     el = case["el"]
     mu = mu_earth()
     c = cart(el, mu)
-    date = mkdate(case["t"])
+    date = relabel(mkdate(case["t"]), case.get("scale"))
     orb = StateVector(c, date, "cartesian", "EME2000").copy(form=case["form"])
     before = np.array(orb.base, float)
     tag = case["tag"]
-    dv = np.array(case["dv"], float)
+    how = case.get("dv_as", "list")
+    given, numbers = dv_spelling(case["dv"], how if case["kind"] != "cont-accel" or how != "int" else "list")
+    dv = np.array(numbers, float)
+    REL0 = 1e-6 if how == "f32" else 1e-12      # single-precision numbers are scaled by the duration in single precision
     frame = tag.upper() if tag else None
     # form conversions come first when the state is not cartesian (C01: 1e-11 kappa)
     k = (1 / abs(1 - el["e"])) * (math.cosh(el["anom"]) ** 2 if el["e"] > 1 else 1) / math.sin(el["i"])
     # h^ is known to eps / sin(angle between r and v) (see triads)
     kap = float(np.linalg.norm(c[:3]) * np.linalg.norm(c[3:]) / np.linalg.norm(np.cross(c[:3], c[3:])))
-    mtol = 1e-12 + 2e-14 * kap
+    mtol = REL0 + 2e-14 * kap
     tol = mtol if case["form"] == "cartesian" else mtol + 1e-10 * k
     worst = 0.0
 
@@ -263,7 +267,7 @@ def check_projection(case):
                             f"{dv.tolist()} = {np.asarray(want).tolist()} (frame {tag!r}, relative diff {d:.3g})")
 
     if case["kind"] == "impulsive":
-        man = ImpulsiveMan(date, list(case["dv"]), frame=tag)
+        man = ImpulsiveMan(date, given, frame=tag)
         if man.frame != frame:
             raise Violation("man-frame-tag", f"frame {tag!r} stored as {man.frame!r}")
         compare("dv", man.dv(orb), ig.to_inertial(dv, c, frame), float(np.linalg.norm(dv)))
@@ -278,10 +282,10 @@ def check_projection(case):
         dur = timedelta(microseconds=case["duration_us"])
         secs = dur.total_seconds()
         if case["kind"] == "cont-dv":
-            man = ContinuousMan(date, dur, dv=list(case["dv"]), frame=tag, date_pos=case["date_pos"])
+            man = ContinuousMan(date, dur, dv=given, frame=tag, date_pos=case["date_pos"])
             acc = dv / secs
         else:
-            man = ContinuousMan(date, dur, accel=list(case["dv"]), frame=tag, date_pos=case["date_pos"])
+            man = ContinuousMan(date, dur, accel=given, frame=tag, date_pos=case["date_pos"])
             acc = dv
         if man.frame != frame:
             raise Violation("man-frame-tag", f"frame {tag!r} stored as {man.frame!r}")
@@ -289,12 +293,13 @@ def check_projection(case):
         # |accel| x duration = |dv|
         tot = float(np.linalg.norm(np.asarray(man._dv, float)))
         want = float(np.linalg.norm(acc)) * secs
-        if abs(tot - want) > 1e-12 * want:
+        if abs(tot - want) > REL0 * want:
             raise Violation("cont-dv-accel", f"|dv| = {tot!r} but |accel| x duration = {want!r}")
         shift = {"start": 0.0, "median": secs / 2, "stop": secs}[case["date_pos"].lower()]
         for nm, got, off in (("start", man.start, -shift), ("stop", man.stop, secs - shift),
                              ("median", man.median, secs / 2 - shift)):
-            if abs((got - date).total_seconds() - off) > 2e-6:
+            # (a burn dated in TDB lasts its duration in TDB seconds: up to 3.3e-10 off the SI value)
+            if abs((got - date).total_seconds() - off) > 2e-6 + (1e-9 * secs if case.get("scale") == "TDB" else 0.0):
                 raise Violation("cont-window", f"{nm} = date {(got - date).total_seconds():+.6f} s, expected {off:+.6f} s "
                                 f"(date_pos={case['date_pos']!r})")
         for kw in (dict(), dict(dv=[1, 0, 0], accel=[1, 0, 0]), dict(dv=[1, 0]), dict(accel=[1, 0, 0, 0])):
@@ -306,7 +311,7 @@ def check_projection(case):
                 raise Violation("man-validation", f"ContinuousMan accepted {kw}")
     if not np.array_equal(np.asarray(orb.base, float), before) or orb.form.name != case["form"]:
         raise Violation("man-input-mutated", "dv()/accel() changed the orbit")
-    cls = el_classes(el) + [f"tag:{tag}", case["kind"], f"form:{case['form']}"]
+    cls = el_classes(el) + [f"tag:{tag}", case["kind"], f"form:{case['form']}", f"dv_as:{how}", f"scale:{case.get('scale', 'UTC')}"]
     if case["kind"] != "impulsive":
         d_us = case["duration_us"]
         cls.append("dur<1s" if d_us < 10**6 else "dur<1d" if d_us < DAY_US else
